@@ -137,6 +137,14 @@ var corruptions = []corruption{
 		s[e.rng.IntN(len(s))] ^= 1 << uint(e.rng.IntN(8))
 		return true
 	}},
+	{"shard-bit-flip-near-end", func(e *corruptEnv, u *propeller.Unit, _ *peer.ID) bool {
+		s := u.ShardData[0]
+		if len(s) == 0 {
+			return false
+		}
+		s[len(s)-1-e.rng.IntN(min(8, len(s)))] ^= 1 << uint(e.rng.IntN(8))
+		return true
+	}},
 	{"shard-truncated", func(e *corruptEnv, u *propeller.Unit, _ *peer.ID) bool {
 		u.ShardData[0] = u.ShardData[0][:len(u.ShardData[0])-1]
 		return true
